@@ -86,8 +86,8 @@ var notTypeNames = map[string]bool{"assoc": true, "byte": true}
 type registry struct {
 	names []string
 	index map[string]int
-	sub   [][]int8           // 1 t, 0 nil, -1 error
-	sub2  [][]bool           // second value
+	sub   [][]int8            // 1 t, 0 nil, -1 error
+	sub2  [][]bool            // second value
 	cpl   map[string][]string // class precedence list, by class
 	err   string
 }
@@ -222,7 +222,7 @@ func execType(x *fw.Ctx, c Case) {
 	if h.o.K == "nil" {
 		for _, ty := range []string{"null", "list", "symbol", "sequence"} {
 			if v, e := typepOf(scope, ty); e != nil || !v {
-				x.Fail("typep-nil type="+ty, "(typep nil '%s) is not t", ty)
+				x.Fail("typep-nil type="+ty, "(typep x '%s) is not t for x = %s, the empty list", ty, src)
 			}
 		}
 	}
@@ -373,6 +373,25 @@ func execSub(x *fw.Ctx, c Case) {
 		}
 		if r.sub[i][i] != 1 {
 			x.Fail("subtypep-reflexive type="+a, "(subtypep '%s '%s) is not t", a, a)
+		}
+		// the same two types reached through their class objects: subtypep
+		// takes a class wherever it takes the name of one
+		scope.Let(slip.Symbol("t1"), slip.Symbol(a))
+		for j, b := range r.names {
+			scope.Let(slip.Symbol("t2"), slip.Symbol(b))
+			res, err := sl.Eval(scope, "(list (subtypep (find-class t1) (find-class t2)) (subtypep t1 (find-class t2)) (subtypep (find-class t1) t2))")
+			x.Cover("subtypep-class-object-route-checked")
+			if err != nil {
+				x.Fail("subtypep-route fail=error", "(subtypep (find-class '%s) (find-class '%s)) and its mixed forms => %s", a, b, fmtErr(err))
+				continue
+			}
+			l, _ := res.(slip.List)
+			for ri, e := range l {
+				if v, _ := truth(e); v != (r.sub[i][j] == 1) {
+					x.Fail("subtypep-route fail=differs", "(subtypep '%s '%s) => %v but the same question asked with class objects (form %d of class/class, name/class, class/name) => %v",
+						a, b, r.sub[i][j] == 1, ri, v)
+				}
+			}
 		}
 		for j, b := range r.names {
 			if r.sub[i][j] != 1 {
